@@ -336,6 +336,9 @@ T* copy_memory_or_deny_access(rlbox_sandbox<T_Sbx>& sandbox,
 
   char* src_raw = src_tainted.copy_and_verify_buffer_address(
     [](uintptr_t val) { return reinterpret_cast<char*>(val); }, num);
+  RLBOX_VERIF_POINT("copy_memory_or_deny_access before memcpy",
+                    src_raw,
+                    source_size);
   std::memcpy(copy, src_raw, source_size);
   if (free_source_on_copy) {
     sandbox.free_in_sandbox(src);
